@@ -8,10 +8,11 @@
     DT:<us>         a `datetime.date` (its own constructor: `date != datetime`)
     M8<unit>:<us>   an `np.datetime64[unit]` (unit D|h|s|ms|us|ns): the `dt` cell of its instant
     TD:<us> | PD:<us> | m8<unit>:<us>   `datetime.timedelta` / `pd.Timedelta` / `np.timedelta64[unit]`: the duration `tdelta`
+    m8Y:<years> | m8M:<months> | CM:<months>   an `np.timedelta64` in calendar units (scalar; `CM:` = a cell of an `mY` / `mM` array): `cdelta` (months)
     NaT:P | NaT:M | NaT:m   `pd.NaT`, `np.datetime64('NaT')`, `np.timedelta64('NaT')`: `nat`
     (L v*) (T v*)   list / tuple
     (D (hexkey v)*) plain dict;  (DC <n> (hexkey v)*)  dict subclass number n >= 1
-    (A <dtype> (<n>*) v*)        ndarray: dtype word (i f e b U o, Mns Mus Ms MD = datetime64, mns mus mD = timedelta64;
+    (A <dtype> (<n>*) v*)        ndarray: dtype word (i f e b U o, Mns Mus Ms MD = datetime64, mns mus mD mY mM = timedelta64;
                                  ignored by the model: `eq` compares cells, not dtypes), shape, cells row-major
     (S (label*) v*)              Series: index labels, values
     (DF (label*) (label*) v*)    DataFrame: index labels, column labels, cells row-major
@@ -39,6 +40,11 @@ partial def ofSexp : Sexp → Option EVal
     else if s.startsWith "M8" then
       match s.splitOn ":" with
       | [_, n] => n.toInt?.map fun us => .cell (.dt us)
+      | _ => Option.none
+    else if s.startsWith "m8Y:" then (s.drop 4).toString.toInt?.map fun n => .cdelta (12 * n)
+    else if s.startsWith "m8M:" || s.startsWith "CM:" then
+      match s.splitOn ":" with
+      | [_, n] => n.toInt?.map .cdelta
       | _ => Option.none
     else if s.startsWith "m8" then
       match s.splitOn ":" with
